@@ -116,6 +116,12 @@ func modeC03(thorough bool) {
 		if lst == "http" || lst == "https" || lst == "fasthttp" {
 			jobs = append(jobs, job{lst: lst, q: base("z1"), hdr: map[string]string{"method": "GET"}})
 		}
+		if lst == "http" || lst == "fasthttp" {
+			for _, hc := range []string{"lower", "upper"} {
+				jobs = append(jobs, job{lst: lst, q: base("z1"), hdr: map[string]string{"method": "GET", "hdrcase": hc}},
+					job{lst: lst, q: base("z2"), hdr: map[string]string{"method": "POST", "hdrcase": hc}})
+			}
+		}
 	}
 	// a plain (UDP) upstream whose truncated answer comes late (3.5 s) and whose TCP side then says nothing: two
 	// faults in a row, one deadline - the response (SERVFAIL) is there 6 s after the query
